@@ -254,6 +254,9 @@ impl<const BITS: usize, const LIMBS: usize> Uint<BITS, LIMBS> {
                 limbs[i] = u64::from_be_bytes(unsafe { *end.sub((i + 1) * 8).cast() });
                 i += 1;
             }
+            if Self::LIMBS > 0 && limbs[Self::LIMBS - 1] > Self::MASK {
+                return None;
+            }
             return Some(Self::from_limbs(limbs));
         }
 
@@ -331,6 +334,9 @@ impl<const BITS: usize, const LIMBS: usize> Uint<BITS, LIMBS> {
             while i < LIMBS {
                 limbs[i] = u64::from_le_bytes(unsafe { *bytes.as_ptr().add(i * 8).cast() });
                 i += 1;
+            }
+            if Self::LIMBS > 0 && limbs[Self::LIMBS - 1] > Self::MASK {
+                return None;
             }
             return Some(Self::from_limbs(limbs));
         }
